@@ -322,7 +322,57 @@ func init() {
 			return true
 		})
 		c.Floor("range-bound literals", nlit, 2)
+
+		// 8. the retrieval walks every tier that holds an item: the range helper hands back the
+		// transmit counts of the tree's own least and greatest items, unclamped (the limit is
+		// recomputed from the cluster-size estimate on every retrieval; when the estimate
+		// shrinks, items already above the new limit still have to be visited to be completed)
+		checkTransmitRange(c)
+		// 9. completion notifications cannot be lost
+		checkNotifyChannels(c, "C10")
 	})
+}
+
+// checkTransmitRange: see 8 above.
+func checkTransmitRange(c *Ctx) {
+	rule := "the retrieval walks every tier that holds an item: the range helper returns the transmit counts of the tree's least and greatest items on every path with a non-empty tree, and (0,0) only for an empty tree"
+	c.Rule(rule)
+	fn := c.MustFunc("TransmitLimitedQueue.getTransmitRange")
+	x := c.flow(fn, map[string]string{})
+	resolve := func(ex *gea.Exit, r string) string {
+		r = untok(r)
+		const suf = ".(*limitedBroadcast).transmits"
+		if !strings.HasSuffix(r, suf) {
+			return r
+		}
+		base := strings.TrimSuffix(r, suf)
+		if t, ok := ex.Store[base]; ok && t.S != "" {
+			return untok(t.S) + suf
+		}
+		return r
+	}
+	n := 0
+	for _, ex := range x.Exits {
+		if len(ex.Ret) != 2 {
+			continue
+		}
+		n++
+		lo, hi := resolve(ex, ex.Ret[0]), resolve(ex, ex.Ret[1])
+		if lo == "0" && hi == "0" {
+			empty := false
+			for k, v := range ex.Cube {
+				u := untok(k)
+				if (strings.Contains(u, "lenLocked()") && strings.HasSuffix(u, ">=1") && v == "F") || (strings.HasSuffix(u, "==nil") && strings.Contains(u, "m.tq.M") && v == "T") || (strings.Contains(u, "lenLocked()") && strings.HasSuffix(u, ">=0") && v == "F") {
+					empty = true
+				}
+			}
+			c.Check("C10/retrieval/walk-covers-tree", rule, ex.Pos, empty, "returns (0,0) although the tree may hold items {"+untok(gea.CubeString(ex.Cube))+"}")
+			continue
+		}
+		ok := lo == "m.tq.Min().(*limitedBroadcast).transmits" && hi == "m.tq.Max().(*limitedBroadcast).transmits"
+		c.Check("C10/retrieval/walk-covers-tree", rule, ex.Pos, ok, "returns ("+lo+", "+hi+") instead of the transmit counts of the tree's least and greatest items: tiers outside that range are never visited, their items are neither sent again nor completed")
+	}
+	c.Floor("exits of the range helper", n, 2)
 }
 
 // checkNilTree: functions that dereference the tree need it non-nil; exported
